@@ -532,6 +532,40 @@ def r06f(ctx):
                            f"than the one given (and read back as that other number, by odfdo and by every other application)")
     if n == 0:
         raise AnalysisError("R06f: no writer of office:value found")
+    # readers: the type-dispatching readers (the arm taken for float / percentage / currency) return Decimal(<attribute text>) or its int() when integral;
+    # nothing in that arm changes digits (Decimal.normalize()/quantize() round to the context precision of 28 digits, float() to 53 bits)
+    from ..paths import if_arms
+    NUM_REWRITE = {"normalize", "quantize", "to_integral", "to_integral_value", "to_integral_exact", "to_eng_string", "scaleb", "fma", "__round__", "as_integer_ratio"}
+    m = 0
+    for f in repo.all_funcs():
+        if f.kind in ("nested", "setter"):
+            continue
+        for st in walk_no_nested(f.node):
+            if not isinstance(st, ast.If):
+                continue
+            core, when_t, _ = if_arms(st)
+            consts = {c.value for x in ast.walk(core) if isinstance(x, (ast.Set, ast.Tuple, ast.List)) for c in x.elts if isinstance(c, ast.Constant)}
+            if "float" not in consts or not any(isinstance(x, ast.Call) and call_name(x).startswith("get_attribute") and x.args
+                                                and repo.fold(x.args[0], f.module, f.cls) == "office:value" for s_ in when_t for x in ast.walk(s_)):
+                continue
+            m += 1
+            bad = None
+            for s_ in when_t:
+                for x in ast.walk(s_):
+                    if isinstance(x, ast.Call) and isinstance(x.func, ast.Attribute) and x.func.attr in NUM_REWRITE:
+                        bad = (x, f".{x.func.attr}() rounds to the decimal context precision or rewrites the digits")
+                    elif isinstance(x, ast.Call) and isinstance(x.func, ast.Name) and x.func.id in ("round", "format", "float", "Float"):
+                        bad = (x, f"{x.func.id}() changes the digits")
+                    elif isinstance(x, ast.FormattedValue) and x.format_spec is not None:
+                        bad = (x, "a format specification fixes the number of digits")
+            ctx.instance("R06f", f"{f.file}:{f.ident}", "numeric arm of the typed reader: " + ("Decimal of the attribute text, digits untouched" if bad is None else bad[1]),
+                         ok=bad is None, nontrivial=True, line=st.lineno)
+            if bad is not None:
+                ctx.report("R06f", f, bad[0], f"{norm(bad[0], 50)} in the numeric arm of {f.ident}",
+                           f"{f.ident} reads office:value through `{norm(bad[0], 40)}`: {bad[1]}, so integers and decimals with more digits than that come back as another number "
+                           f"than the one stored")
+    if m < 2:
+        raise AnalysisError(f"R06f: only {m} type-dispatching reader(s) of office:value found (expected ElementTyped._get_typed_value and Cell.value)")
 
 
 def run(ctx):
@@ -552,6 +586,9 @@ from ..selftest import Seed, unparse_seed  # noqa: E402
 
 _ET = "src/odfdo/element_typed.py"
 SEEDS = [
+    Seed("typed reader normalises the Decimal it returns", "fault", "src/odfdo/element_typed.py", "            value = Decimal(read_number)\n", "            value = Decimal(read_number).normalize()\n", "R06f"),
+    Seed("Cell.value rounds to 12 places", "fault", "src/odfdo/cell.py", '            value_decimal = Decimal(str(self.get_attribute_string("office:value")))\n', '            value_decimal = round(Decimal(str(self.get_attribute_string("office:value"))), 12)\n', "R06f"),
+    Seed("typed reader names the text first", "neutral", "src/odfdo/element_typed.py", "            value = Decimal(read_number)\n", "            text_number = str(read_number)\n            value = Decimal(text_number)\n"),
     Seed("small floats written with a fixed-precision format", "fault", _ET, "            value = str(value)\n        elif isinstance(value, datetime):",
          "            value = f\"{value:f}\" if isinstance(value, float) else str(value)\n        elif isinstance(value, datetime):", "R06f"),
     Seed("Cell.int setter converts through a float", "fault", "src/odfdo/cell.py", "            value_int = int(value)  # type:ignore", "            value_int = int(float(value))  # type:ignore", "R06f"),
